@@ -467,8 +467,16 @@ func (c13) Run(input any) kit.Case {
 	// ---- the implementation
 	var olog *api_pb.ObservationLog
 	var cerr error
+	// the implementation is given copies of the two slices: everything the model is told below is computed from in
+	cp := func(xs []string) []string {
+		if xs == nil {
+			return nil
+		}
+		return append([]string{}, xs...)
+	}
+	metricsArg, filtersArg := cp(in.Metrics), cp(in.Filters)
 	pan := kit.Recover(func() {
-		olog, cerr = filemc.CollectObservationLog(fn, in.Metrics, in.Filters, commonv1beta1.FileFormat(in.Format))
+		olog, cerr = filemc.CollectObservationLog(fn, metricsArg, filtersArg, commonv1beta1.FileFormat(in.Format))
 	})
 
 	// ---- library results for the model
